@@ -201,7 +201,30 @@ def to_model_input(sp: Spies):
     ids: dict[int, int] = {}
     nodes_by_id: dict[int, object] = {}
     notes: list[str] = []
-    func_roots = {id(r["graph"]): r for r in list(getattr(sp, "earlier_roots", [])) + sp.roots[1:]}
+    # Graph copies made by with_name/with_opset share the `_results` dict of the graph they come from:
+    # that identifies the compile records of a function graph (compiled by Function.opset_req, and again
+    # by to_onnx_function) and tells them from the record of the graph build() was called on.
+    def gkey(g):
+        return id(getattr(g, "_results", g))
+
+    all_roots = list(getattr(sp, "earlier_roots", [])) + list(sp.roots)
+    func_keys = set()
+
+    def scan(rec):
+        if rec.get("result") is not None:
+            for node in rec["result"].nodes:
+                if isinstance(node, Function):
+                    func_keys.add(gkey(node.func_graph))
+        for c in rec["children"]:
+            scan(c)
+
+    for r in all_roots:
+        scan(r)
+    func_roots: dict = {}
+    for r in all_roots:
+        if gkey(r["graph"]) in func_keys and r.get("result") is not None:
+            func_roots.setdefault(gkey(r["graph"]), r)
+    main_roots = [r for r in sp.roots if gkey(r["graph"]) not in func_keys]
 
     def nid(node):
         if id(node) not in ids:
@@ -229,7 +252,7 @@ def to_model_input(sp: Spies):
                 j.update(k="inline", imports=[[i.domain, i.version] for i in node.model.opset_import],
                          hd=any(p.domain in ("", "ai.onnx") for p in protos))
             elif isinstance(node, Function):
-                fr = func_roots.get(id(node.func_graph))
+                fr = func_roots.get(gkey(node.func_graph))
                 if fr is None:
                     notes.append("function graph compile not observed")
                 j.update(k="func", d=node.op_type.domain, v=node.op_type.version,
@@ -253,9 +276,9 @@ def to_model_input(sp: Spies):
             notes.append(f"{n_intro} _Introduce nodes in one compiled graph")
         return {"nodes": out}
 
-    if not sp.roots:
-        return None, nodes_by_id, ["no compile observed"]
-    return graph(sp.roots[0]), nodes_by_id, notes
+    if len(main_roots) != 1:
+        return None, nodes_by_id, [f"{len(main_roots)} compile records for the main graph"]
+    return graph(main_roots[0]), nodes_by_id, notes
 
 
 MODEL_CLASS = {
@@ -288,22 +311,104 @@ def real_class(rec, sp: Spies):
     return "other", None
 
 
-def correspond(ck, drv, prog, obs, mismatches):
+def proto_form(p):
+    """What the schema of a node constrains: operator, attribute names/kinds, arities."""
+    return {"op": p.op_type, "domain": "" if p.domain == "ai.onnx" else p.domain,
+            "attrs": sorted((a.name, int(a.type)) for a in p.attribute),
+            "n_in": len(p.input), "n_out": len(p.output)}
+
+
+def form_problems(form, version):
+    """Is a node of this form well-formed for the schema in force at `version`? (onnx.defs only)"""
+    import onnx.defs
+
+    try:
+        sch = onnx.defs.get_schema(form["op"], version, form["domain"])
+    except Exception:  # noqa: BLE001
+        return [f"{form['op']} has no schema at {version}"]
+    out = []
+    for n, k in form["attrs"]:
+        if n not in sch.attributes:
+            out.append(f"attribute {n!r} unknown to {form['op']}-{sch.since_version}")
+        elif int(sch.attributes[n].type.value) != k:
+            out.append(f"attribute {n!r} of the wrong kind")
+    have = {n for n, _ in form["attrs"]}
+    for n, ad in sch.attributes.items():
+        if ad.required and n not in have:
+            out.append(f"required attribute {n!r} missing")
+    if not (sch.min_input <= form["n_in"] <= sch.max_input):
+        out.append(f"{form['n_in']} inputs")
+    if not (sch.min_output <= form["n_out"] <= sch.max_output):
+        out.append(f"{form['n_out']} outputs")
+    return out
+
+
+def extract_real(obs):
+    """Everything the correspondence needs from one observed build, as plain data (picklable)."""
+    from spox._function import Function
+    from spox._internal_op import _Introduce
+
+    real = {"request": None, "mismatches": [], "abe": [], "imports": None, "func_keys": [], "func_imports": {},
+            "complete": False}
     sp = obs["spies"]
     if sp is None:
-        return
+        return real
     for u in sp.unobservable[:4]:
-        mismatches.append(("not observable", u))
+        real["mismatches"].append(("not observable", u))
     if sp.unobservable:
-        return
-    if sp.roots and sp.roots[0]["result"] is None:
-        return  # the build stopped inside compile_graph: no complete structure to give to the model
+        return real
+    if any(r["result"] is None for r in sp.roots):
+        return real  # the build stopped inside compile_graph: no complete structure to give to the model
     req, nodes_by_id, notes = to_model_input(sp)
     for n in notes:
-        mismatches.append(("structure", n))
+        real["mismatches"].append(("structure", n))
     if req is None:
-        return
-    m = drv.ask("C09", {"t": "model", "graph": req})
+        return real
+    real["request"] = req
+    ids = {id(n): i for i, n in nodes_by_id.items()}
+    # a function graph is compiled twice (for its requirements, then by to_onnx_function with the model's
+    # opsets): what is emitted comes from the last adaptation of a node
+    last = {}
+    for k, rec in enumerate(sp.abe):
+        last[id(rec["node"])] = k
+    for k, rec in enumerate(sp.abe):
+        node = rec["node"]
+        if isinstance(node, _Introduce) or last[id(node)] != k:
+            continue
+        cls, st = real_class(rec, sp)
+        item = {"id": ids.get(id(node)), "op": f"{node.op_type.identifier}@{node.op_type.version}",
+                "opsets": [list(x) for x in rec["opsets"]], "cls": cls, "st": list(st) if st else None,
+                "fresh": None, "name": None, "qual": None, "orig_form": None, "conv_form": None}
+        if cls == "convert" and rec["result"] is not None:
+            p0 = rec["protos"][0]
+            orig = set(p0.output) | set(p0.input)
+            fresh = [o for p_ in rec["result"] for o in p_.output if o and o not in orig]
+            item.update(fresh=fresh, name=p0.name, qual=all(o.startswith(p0.name + "__") for o in fresh),
+                        orig_form=proto_form(p0))
+            main = [p_ for p_ in rec["result"] if set(p_.output) & set(p0.output)]
+            item["conv_form"] = [proto_form(p_) for p_ in main]
+            item["conv_others"] = [proto_form(p_) for p_ in rec["result"] if p_ not in main]
+        real["abe"].append(item)
+    if obs["model"] is not None:
+        real["complete"] = True
+        real["imports"] = [[o.domain, o.version] for o in obs["model"].opset_import]
+
+        def collect(g):
+            for j in g["nodes"]:
+                n = nodes_by_id[j["id"]]
+                if isinstance(n, Function):
+                    real["func_keys"].append([n.op_type.domain, n.op_type.identifier])
+                    for s_ in j.get("subs", []):
+                        collect(s_)
+
+        collect(req)
+        for f in obs["model"].functions:
+            real["func_imports"][f"{f.domain}:{f.name}"] = [[o.domain, o.version] for o in f.opset_import]
+    return real
+
+
+def compare(real, m, mismatches):
+    """Model (driver answer `m`) against the observed build (`real`)."""
     if "error" in m:
         mismatches.append(("driver", m["error"]))
         return
@@ -311,69 +416,92 @@ def correspond(ck, drv, prog, obs, mismatches):
     for f in m["funcs"]:
         for e in f["entries"]:
             ents.setdefault(e["id"], e)
-    ids = {id(n): i for i, n in nodes_by_id.items()}
-    from spox._internal_op import _Introduce
-
     seen = set()
-    for rec in sp.abe:
-        node = rec["node"]
-        if isinstance(node, _Introduce):
-            continue
-        i = ids.get(id(node))
+    for rec in real["abe"]:
+        i = rec["id"]
         if i is None or i not in ents:
-            mismatches.append(("node", f"adapted node {node.op_type} unknown to the model"))
+            mismatches.append(("node", f"adapted node {rec['op']} unknown to the model"))
             continue
         seen.add(i)
         e = ents[i]
-        if [list(x) for x in rec["opsets"]] != e["opsets"]:
-            mismatches.append(("opsets", f"{node.op_type.identifier}: real {rec['opsets']} model {e['opsets']}"))
-        cls, st = real_class(rec, sp)
+        if rec["opsets"] != e["opsets"]:
+            mismatches.append(("opsets", f"{rec['op']}: real {rec['opsets']} model {e['opsets']}"))
+        cls, st = rec["cls"], rec["st"]
         mcls = MODEL_CLASS[e["dec"]]
         if cls != mcls:
-            mismatches.append(("decision", f"{node.op_type.identifier}@{node.op_type.version}: real {cls}{st or ''} model {e['dec']}"))
-        elif st is not None and (e.get("src"), e.get("tgt")) != st:
-            mismatches.append(("versions", f"{node.op_type.identifier}: real {st} model {(e.get('src'), e.get('tgt'))}"))
-        if cls == "convert-inline" and e.get("tgt") != dict(rec["opsets"]).get(""):
+            mismatches.append(("decision", f"{rec['op']}: real {cls}{st or ''} model {e['dec']}"))
+        elif st is not None and [e.get("src"), e.get("tgt")] != st:
+            mismatches.append(("versions", f"{rec['op']}: real {st} model {[e.get('src'), e.get('tgt')]}"))
+        if cls == "convert-inline" and e.get("tgt") != dict(map(tuple, rec["opsets"])).get(""):
             mismatches.append(("versions", "inline target"))
-        if cls == "convert" and rec["result"] is not None:
-            orig = set(rec["protos"][0].output) | set(rec["protos"][0].input)
-            fresh = [o for p in rec["result"] for o in p.output if o and o not in orig]
-            name = rec["protos"][0].name
-            q = all(o.startswith(name + "__") for o in fresh)
-            if fresh and q != bool(e.get("qualified")):
-                mismatches.append(("names", f"{name}: introduced {fresh}, model says qualified={e.get('qualified')}"))
-    if obs["model"] is not None:
-        real_imports = [[o.domain, o.version] for o in obs["model"].opset_import]
-        if real_imports != m["imports"]:
-            mismatches.append(("imports", f"real {real_imports} model {m['imports']}"))
+        if cls == "convert" and rec["fresh"] is not None:
+            if rec["fresh"] and rec["qual"] != bool(e.get("qualified")):
+                mismatches.append(("names", f"{rec['name']}: introduced {rec['fresh']}, model says qualified={e.get('qualified')}"))
+            # the converter's observable output: the node that now defines the original outputs is
+            # well-formed for the schema at the target, and its form changed whenever the model says the
+            # old form is not accepted there
+            tgt = e.get("tgt")
+            forms = rec["conv_form"] or []
+            if len(forms) != 1:
+                mismatches.append(("converter", f"{rec['op']}: {len(forms)} nodes define the original outputs"))
+            for fm in forms + (rec.get("conv_others") or []):
+                pr = form_problems(fm, tgt)
+                if pr:
+                    mismatches.append(("converter", f"{rec['op']} -> {tgt}: emitted {fm['op']} {pr[0]}"))
+            if forms and "mustChange" in e:
+                changed = (forms[0]["attrs"], forms[0]["n_in"]) != (rec["orig_form"]["attrs"], rec["orig_form"]["n_in"])
+                if e["mustChange"] and not changed:
+                    mismatches.append(("converter", f"{rec['op']} -> {tgt}: form unchanged although the old form is not accepted at the target"))
+    if real["complete"]:
+        if real["imports"] != m["imports"]:
+            mismatches.append(("imports", f"real {real['imports']} model {m['imports']}"))
         missing = set(ents) - seen
         if missing:
             mismatches.append(("node", f"{len(missing)} model nodes never adapted by the real code"))
-        # functions: by (domain, name) through the Function nodes, in order
-        from spox._function import Function
+        if len(real["func_keys"]) != len(m["funcs"]):
+            mismatches.append(("functions", f"{len(real['func_keys'])} function nodes, model lists {len(m['funcs'])}"))
+        for (dom, name), mf in zip(real["func_keys"], m["funcs"]):
+            ri = real["func_imports"].get(f"{dom}:{name}")
+            if ri is None:
+                mismatches.append(("functions", f"function {name} not in model.functions"))
+            elif ri != mf["imports"]:
+                mismatches.append(("functions", f"{name}: real imports {ri} model {mf['imports']}"))
 
-        fnodes = []
 
-        def collect(g):
-            for j in g["nodes"]:
-                n = nodes_by_id[j["id"]]
-                if isinstance(n, Function):
-                    fnodes.append(n)
-                    for s in j.get("subs", []):
-                        collect(s)
-
-        collect(req)
-        protos = {(f.domain, f.name): f for f in obs["model"].functions}
-        if len(fnodes) != len(m["funcs"]):
-            mismatches.append(("functions", f"{len(fnodes)} function nodes, model lists {len(m['funcs'])}"))
-        for fn, mf in zip(fnodes, m["funcs"]):
-            fp = protos.get((fn.op_type.domain, fn.op_type.identifier))
-            if fp is None:
-                mismatches.append(("functions", f"function {fn.op_type.identifier} not in model.functions"))
-                continue
-            ri = [[o.domain, o.version] for o in fp.opset_import]
-            if ri != mf["imports"]:
-                mismatches.append(("functions", f"{fp.name}: real imports {ri} model {mf['imports']}"))
+def process_case(args):
+    """One program, start to finish, in a worker: build under observation, plain-data extraction for the
+    correspondence, model-free verdict, shrinking. Never raises."""
+    idx, fam, prog, shrink_budget = args
+    res = {"idx": idx, "fam": fam, "real": None, "verdict": None, "small": None, "v2": None, "key": None,
+           "feats": None, "crash": None, "stats": {}, "unsupported": []}
+    try:
+        del UNSUPPORTED[:]
+        obs = observe(prog)
+        try:
+            res["real"] = extract_real(obs)
+        except Exception as e:  # noqa: BLE001
+            res["real"] = {"request": None, "abe": [], "complete": False,
+                           "mismatches": [("correspondence-crash", f"{type(e).__name__}: {e}")]}
+        verdict = judge(prog, obs)
+        sp = obs["spies"]
+        st = res["stats"]
+        if sp is not None:
+            st["nodes_adapted"] = len(sp.abe)
+            st["converted_nodes"] = sum(1 for v in sp.an.values() if v[2] == "list")
+            st["converted_inlines"] = sum(1 for v in sp.ai.values() if v)
+            st["nconv"] = len(sp.an) + st["converted_inlines"]
+        if obs["model"] is not None:
+            st["imports"] = ",".join(f"{o.domain or 'ai.onnx'}:{o.version}" for o in obs["model"].opset_import)
+            st["imports_list"] = [[o.domain, o.version] for o in obs["model"].opset_import]
+        res["verdict"] = verdict
+        if verdict is not None:
+            small = prog if fam.startswith("witness") else shrink(prog, verdict[0], budget=shrink_budget)
+            v2 = fails(small) or verdict
+            res.update(small=small, v2=v2, key=classify(v2[0], small, v2[1]), feats=L.features(small))
+        res["unsupported"] = list(UNSUPPORTED)
+    except Exception as e:  # noqa: BLE001
+        res["crash"] = f"{type(e).__name__}: {e} :: {core.fmt_exc()[-400:]}"
+    return res
 
 
 # ------------------------------------------------------------------------------------ oracle
@@ -465,6 +593,8 @@ def judge1(prog, obs):
         return ("checker-rejects", str(e).splitlines()[0][:160])
     try:
         so = ort.SessionOptions()
+        so.intra_op_num_threads = 1
+        so.inter_op_num_threads = 1
         so.log_severity_level = 4
         sess = ort.InferenceSession(model.SerializeToString(), so, providers=["CPUExecutionProvider"])
     except Exception as e:  # noqa: BLE001
@@ -643,7 +773,7 @@ def witness_programs():
 def gen_programs(ck):
     rng = ck.rng
     progs = []
-    n = ck.pick(550, 6000)
+    n = ck.pick(1500, 40000)
     for i in range(n):
         r = rng.random()
         clean = r < 0.85
@@ -664,7 +794,6 @@ def gen_programs(ck):
                 outs2.append(nid)
             p2["prebuild_outs"] = list(p2["outs"])
             p2["outs"] = outs2
-            L.pin_bodies(p2)
             L.align_unknown_rank(p2)
             progs.append(("history", p2))
     return progs
@@ -707,6 +836,8 @@ def targeted_programs():
                         {"id": "f", "op": "func", "name": "fdom2", "domain": "verif.other", "params": ["p"], "args": ["a"],
                          "body": {"nodes": [st("q", "rmean", 17, ["p"], axis=0)], "out": "q"}},
                         st("g", "identity", 21, ["f"])], "outs": ["g", "f"]})
+    P.append({"nodes": [{"id": "a", "op": "inline", "model": {"kind": "ml_only", "mlv": 2}, "args": ["x"]},
+                        st("b", "rmean", 17, ["a"], axis=1), st("c", "identity", 19, ["b"])], "outs": ["c"]})
     # the same function application built twice, in models with different maxima
     P.append({"nodes": [{"id": "f", "op": "func", "name": "ftwice", "params": ["p"], "args": ["x"],
                          "body": {"nodes": [st("q", "rmean", 17, ["p"], axis=0), st("r", "rmax", 18, ["q"], axis=1)], "out": "r"}},
@@ -828,48 +959,80 @@ def run(ck: core.Check):
     cases += gen_programs(ck)
 
     stats = {"programs": 0, "built": 0, "max_depth": 0, "with_if": 0, "with_inline": 0, "with_func": 0,
-             "with_ml": 0, "with_dyn": 0, "nodes_adapted": 0, "converted_nodes": 0, "converted_inlines": 0,
-             "imports_seen": {}, "stages": {}}
-    for fam, prog in cases:
+             "with_ml": 0, "with_dyn": 0, "with_history": 0, "nodes_adapted": 0, "converted_nodes": 0,
+             "converted_inlines": 0, "conversions_form_checked": 0, "imports_seen": {}, "stages": {},
+             "worker_crashes": 0}
+    import multiprocessing as mp
+    import os
+
+    budget = ck.pick(60, 150)
+    jobs = [(i, fam, prog, budget) for i, (fam, prog) in enumerate(cases)]
+    nproc = max(1, min(int(os.environ.get("VERIF_JOBS", "0") or 0) or 12, os.cpu_count() or 1, len(jobs)))
+    results = None
+    if nproc > 1:
+        try:
+            with mp.get_context("fork").Pool(nproc) as pool:
+                results = pool.map(process_case, jobs, chunksize=4)
+        except Exception as e:  # noqa: BLE001
+            ck.broken("infrastructure", "C09 worker pool", f"{type(e).__name__}: {e}")
+            results = None
+    if results is None:
+        results = [process_case(j) for j in jobs]
+    results.sort(key=lambda r: r["idx"])
+
+    # model side: one batch through the driver, in case order
+    answers: dict[int, dict] = {}
+    if drv is not None:
+        asked = [r for r in results if r["real"] and r["real"].get("request") is not None]
+        try:
+            outs = drv.ask_many("C09", [{"t": "model", "graph": r["real"]["request"]} for r in asked])
+            answers = {r["idx"]: o for r, o in zip(asked, outs)}
+        except Exception as e:  # noqa: BLE001
+            ck.broken("correspondence", "C09 driver batch", f"{type(e).__name__}: {e}")
+
+    kinds_reported: dict[str, int] = {}
+    for r, (fam, prog) in zip(results, cases):
         stats["programs"] += 1
-        obs = observe(prog)
-        sp = obs["spies"]
-        if drv is not None:
-            before = len(mismatches)
+        if r["crash"]:
+            stats["worker_crashes"] += 1
+            if stats["worker_crashes"] <= 3:
+                ck.broken("correspondence", "C09 case not processed", f"{r['crash']} :: prog={json.dumps(prog)[:400]}")
+            continue
+        real = r["real"] or {"mismatches": [], "abe": []}
+        local: list[tuple[str, str]] = list(map(tuple, real.get("mismatches", [])))
+        if r["idx"] in answers:
             try:
-                correspond(ck, drv, prog, obs, mismatches)
+                compare(real, answers[r["idx"]], local)
             except Exception as e:  # noqa: BLE001
-                mismatches.append(("correspondence-crash", f"{type(e).__name__}: {e}"))
-            for kind, msg in mismatches[before:before + 2]:
-                if sum(1 for k, _ in mismatches[:before] if k == kind) < 2:
-                    ck.broken("correspondence", f"C09 {kind}", f"{msg} :: prog={json.dumps(prog)[:600]}")
-        verdict = judge(prog, obs)
+                local.append(("correspondence-crash", f"{type(e).__name__}: {e}"))
+        stats["conversions_form_checked"] += sum(1 for x in real.get("abe", []) if x.get("conv_form"))
+        for kind, msg in local:
+            mismatches.append((kind, msg))
+            if kinds_reported.get(kind, 0) < 2:
+                kinds_reported[kind] = kinds_reported.get(kind, 0) + 1
+                ck.broken("correspondence", f"C09 {kind}", f"{msg} :: prog={json.dumps(prog)[:600]}")
+        UNSUPPORTED.extend(r["unsupported"])
         ops_used = sorted({st["op"] for st, *_ in L.walk(prog["nodes"])})
         d = L.prog_depth(prog)
         stats["max_depth"] = max(stats["max_depth"], d)
         for k, o in (("with_if", "if"), ("with_inline", "inline"), ("with_func", "func"), ("with_dyn", "dyn")):
             stats[k] += int(o in ops_used)
         stats["with_ml"] += int(any(o.startswith("ml_") for o in ops_used))
-        if sp is not None:
-            stats["nodes_adapted"] += len(sp.abe)
-            stats["converted_nodes"] += sum(1 for v in sp.an.values() if v[2] == "list")
-            stats["converted_inlines"] += sum(1 for v in sp.ai.values() if v)
-        if obs["model"] is not None:
+        stats["with_history"] += int("prebuild_outs" in prog)
+        for k in ("nodes_adapted", "converted_nodes", "converted_inlines"):
+            stats[k] += r["stats"].get(k, 0)
+        if "imports" in r["stats"]:
             stats["built"] += 1
-            k = ",".join(f"{o.domain or 'ai.onnx'}:{o.version}" for o in obs["model"].opset_import)
+            k = r["stats"]["imports"]
             stats["imports_seen"][k] = stats["imports_seen"].get(k, 0) + 1
-        nconv = sum(1 for v in (sp.an.values() if sp else [])) + sum(1 for v in (sp.ai.values() if sp else []) if v)
-        ck.count(("prog", json.dumps(prog, sort_keys=True)) if (nconv or d) else None)
-        ck.sample({"family": fam, "imports": [[o.domain, o.version] for o in obs["model"].opset_import] if obs["model"] is not None else None,
-                   "verdict": verdict, "prog": prog}, 4)
-        if verdict is not None:
-            stage, msg = verdict
+        ck.count(("prog", json.dumps(prog, sort_keys=True)) if (r["stats"].get("nconv") or d) else None)
+        ck.sample({"family": fam, "imports": r["stats"].get("imports_list"), "verdict": r["verdict"], "prog": prog}, 4)
+        if r["verdict"] is not None:
+            stage = r["verdict"][0]
             stats["stages"][stage] = stats["stages"].get(stage, 0) + 1
-            small = prog if fam.startswith("witness") else shrink(prog, stage, budget=ck.pick(60, 150))
-            v2 = fails(small) or verdict
-            key = classify(v2[0], small, v2[1])
-            ck.failure(key, f"{v2[0]}: {v2[1]}", {"prog": small, "stage": v2[0], "features": L.features(small),
-                                                 "family": fam, "original_size": L.prog_size(prog)})
+            v2 = r["v2"]
+            ck.failure(r["key"], f"{v2[0]}: {v2[1]}", {"prog": r["small"], "stage": v2[0], "features": r["feats"],
+                                                     "family": fam, "original_size": L.prog_size(prog)})
 
     ck.cov.update({
         "correspondence_programs": stats["programs"],
